@@ -133,7 +133,7 @@ def r3(ctx):
             rep.bad("Cache::get:first-call", "Cache::get does not start with get_by_key", g.loc())
             continue
         lookup = calls[0].result
-        d = p.state.discr.get(lookup)
+        d = d2(p, lookup)
         var, pl = variant_of(p.ret)
         if d is None or isinstance(d, tuple):
             # the lookup's result is handed back without being examined: a found record reaches the caller unchecked
